@@ -403,6 +403,16 @@ class FreeEnergy(InterpolatableFunction):
                         f"vev={ode.y}"
                     )
                     break
+                if TList.size > 0 and abs(ode.t - TList[-1]) < 1e-8 * dT:
+                    # A step of rounding size: typically the last one, onto the end of
+                    # the range that the accumulated steps missed by a few ulp. Two
+                    # almost coincident nodes would make the spline's derivatives near
+                    # the end of the table rounding noise; the new point replaces the
+                    # previous one instead.
+                    TList[-1] = ode.t
+                    fieldList[-1] = ode.y
+                    potentialEffList[-1] = potentialEffT
+                    continue
                 # append results to lists
                 TList = np.append(TList, [ode.t], axis=0)
                 fieldList = np.append(fieldList, [ode.y], axis=0)
